@@ -90,6 +90,21 @@ CLAIMED = {
         technique="TLA+ policy spec model-checked over all fault plans + exhaustive fault injection with TLC trace validation",
         ref="5/C21",
     ),
+    "C20": dict(
+        level="model_checking",
+        text="TimeGrid.tla states the Solution contract in exact tick arithmetic (step count = index of the first grid point at or after t1, "
+             "checked by TLC to agree with the ceiling formula on the whole lattice; rows of complete and truncated runs; field-name to "
+             "dimension table); SolverRun.tla ties returned rows to accepted steps. Lattice states become runs of all seven solvers with the "
+             "decimal literals a user would type (ticks 0.1, 0.01, 0.001, 0.25, 1/64) on systems with different dimension signatures; rows, "
+             "t[0], t[k], every field's shape, the iterator records and a save/load round trip are compared with the spec. Truncated runs "
+             "come from the fault hooks and from integrators that stop early; the planned grids of Moreau/ScipyIVP/ScipyDAE are checked on "
+             "the whole lattice x all ticks.",
+        note="Quick tier samples 40 lattice states per solver (seeded) and checks ~5.8k planned grids exhaustively; thorough runs up to 400 "
+             "states per solver with spans to 40 ticks. Inputs are restricted to the decimal/dyadic lattice so the exact step count is "
+             "unambiguous; t[k] compared at 1e-12. Runs that end in an announced non-convergence are not judged here (C21).",
+        technique="TLA+ exact-arithmetic spec + TLC lattice enumeration, replay into all solvers",
+        ref="5/C20",
+    ),
 }
 
 NOT_APPLICABLE = {
